@@ -5,9 +5,10 @@ from fractions import Fraction
 from harness.core import numeval, tb
 from harness.props import _shared
 
-PROOF_MODULE = "OdeVerif.Proofs.C02"
+PROOF_MODULE = ["OdeVerif.Proofs.C02", "OdeVerif.Proofs.PipelineLossless"]
 THEOREMS = ["OdeVerif.C02.split_lossless", "OdeVerif.C02.classify_lin_lt", "OdeVerif.C02.split_const_coeffs", "OdeVerif.C02.fromOde_lossless",
-            "OdeVerif.C02.unit_row_value", "OdeVerif.C02.subsystem_lossless", "OdeVerif.C02.numericRhs_eq_row", "OdeVerif.C02.numericRhs_eq_userRhs"]
+            "OdeVerif.C02.unit_row_value", "OdeVerif.C02.subsystem_lossless", "OdeVerif.C02.numericRhs_eq_row", "OdeVerif.C02.numericRhs_eq_userRhs",
+            "OdeVerif.PipelineSpec.splitRow_lossless", "OdeVerif.PipelineSpec.splitRow_A_const", "OdeVerif.PipelineSpec.splitRow_b_const", "OdeVerif.PipelineSpec.unitRow_den", "OdeVerif.PipelineSpec.rows_lossless", "OdeVerif.PipelineSpec.numericRhs_lossless", "OdeVerif.PipelineSpec.analyse_numeric_rhs"]
 LEVEL = "proof"
 
 SIMPLIFY = [None, None, "sympy.logcombine(sympy.powsimp(sympy.expand(expr)))", "expr", "sympy.factor(expr)"]
@@ -108,6 +109,7 @@ def run(ctx, driver):
     _shared.corr_split(ctx, driver, cases, results)
     _shared.corr_subsys(ctx, driver, cases, results)
     _shared.corr_from_ode(ctx, driver, cases, results)
+    _shared.corr_pipeline(ctx, driver, cases, results)
     ctx.assumptions += [
         "SymPy contracts (denotation preserved): parse_expr, str (re-parse round trip in reconstitute_expr), expand, simplify / the user's simplify_expression, collect; term / sym is exact division of rational functions",
         "values are compared at random rational points (transcendental atoms at 40 digits); agreement is Schwartz-Zippel evidence for the correspondence, never a proof",
